@@ -204,14 +204,7 @@ func (s *Sim) finish(t *Task) {
 	}
 	s.mu.Lock()
 	t.state = stDone
-	// a task that dies holding simulated locks releases them (its deferred unlocks already ran if it had any)
-	for k, ls := range s.locks {
-		if ls.writer == t {
-			ls.writer = nil
-		}
-		delete(ls.readers, t)
-		_ = k
-	}
+	// a task that ends while holding a simulated lock has leaked it: it stays held, exactly as the real lock does
 	for g, x := range s.byG {
 		if x == t {
 			delete(s.byG, g)
@@ -633,11 +626,26 @@ func (s *Sim) release(key any, read bool) {
 	s.mu.Unlock()
 }
 
-func MutexLock(m *sync.Mutex)       { cur.Load().acquire(m, false); m.Lock() }
+// realLock takes the real lock behind a simulated one. During teardown a lock may have been leaked for good (a
+// task returned without unlocking): a task that cannot get it then ends instead of blocking non-durably forever.
+func realLock(try func() bool, lock func()) {
+	if s := cur.Load(); s != nil && s.stopping.Load() && s.current() != nil {
+		for i := 0; i < 2000; i++ {
+			if try() {
+				return
+			}
+			runtime.Gosched()
+		}
+		runtime.Goexit()
+	}
+	lock()
+}
+
+func MutexLock(m *sync.Mutex)       { cur.Load().acquire(m, false); realLock(m.TryLock, m.Lock) }
 func MutexUnlock(m *sync.Mutex)     { m.Unlock(); cur.Load().release(m, false) }
-func RWMutexLock(m *sync.RWMutex)   { cur.Load().acquire(m, false); m.Lock() }
+func RWMutexLock(m *sync.RWMutex)   { cur.Load().acquire(m, false); realLock(m.TryLock, m.Lock) }
 func RWMutexUnlock(m *sync.RWMutex) { m.Unlock(); cur.Load().release(m, false) }
-func RWMutexRLock(m *sync.RWMutex)  { cur.Load().acquire(m, true); m.RLock() }
+func RWMutexRLock(m *sync.RWMutex)  { cur.Load().acquire(m, true); realLock(m.TryRLock, m.RLock) }
 func RWMutexRUnlock(m *sync.RWMutex) {
 	m.RUnlock()
 	cur.Load().release(m, true)
